@@ -244,6 +244,10 @@ class Heap:
                         cv[(c, nm)] = self.new_dict('@classvar_%s_%s' % (c, nm))
                     elif (isinstance(node, ast.Call) and norm(node.func) == 'list' and not node.args) or (isinstance(node, ast.List) and not node.elts):
                         cv[(c, nm)] = self.new_list([], '@classvar_%s_%s' % (c, nm))
+                    elif isinstance(node, (ast.Tuple, ast.List)) and any(isinstance(n_, ast.Name) for n_ in ast.walk(node)) \
+                            and self._class_body_value(node, c) is not None:
+                        # a table whose entries name functions written in the class body (a dispatch table): the functions themselves
+                        cv[(c, nm)] = self._class_body_value(node, c)[0]
                     else:
                         # a table of constants (tuple / frozenset / list of str, int ...): the folded value
                         home = self.module._home(c) if hasattr(self.module, '_home') else self.module
@@ -286,6 +290,27 @@ class Heap:
                 if fn is not None:
                     return Closure(fn.node, {}, ref, fn.cls)
         raise AnalysisError('heap model: %s has no attribute %s' % (o['__class__'], attr))
+
+    def _class_body_value(self, node, c):
+        """value of an expression of the class body of c that is built from constants, tuples / lists and names of functions defined in
+        that class body: (value,) or None"""
+        if isinstance(node, ast.Constant):
+            return (node.value,)
+        if isinstance(node, (ast.Tuple, ast.List)):
+            vals = [self._class_body_value(e_, c) for e_ in node.elts]
+            if any(v_ is None for v_ in vals):
+                return None
+            vals = [v_[0] for v_ in vals]
+            return (tuple(vals),) if isinstance(node, ast.Tuple) else (self.new_list(vals),)
+        if isinstance(node, ast.Name):
+            home = self.module._home(c) if hasattr(self.module, '_home') else self.module
+            fn = home.funcs.get('%s.%s' % (c, node.id)) if home is not None else None
+            if fn is not None and not fn.node.decorator_list:
+                return (Closure(fn.node, {}, None, c),)          # the plain function (no binding: it is called with the object)
+            val = home.consts.get(c, {}).get(node.id) if home is not None else None
+            if isinstance(val, (str, int, bytes, tuple, frozenset)) and not isinstance(val, bool):
+                return (val,)
+        return None
 
     def setattr(self, ref, attr, value, cur_cls):
         o = self.objs[ref.name]
@@ -406,7 +431,16 @@ class Interp:
             env = dict(fn.env)
             params = [a.arg for a in node.args.args]
             if isinstance(node, ast.Lambda):
+                if node.args.vararg is not None:
+                    env[node.args.vararg.arg] = tuple(args[len(params):])       # lambda a, *rest: ...
+                elif len(args) > len(params):
+                    raise AnalysisError('heap model: too many arguments for a lambda')
                 env.update(zip(params, args))
+                for p, d in zip(params[len(params) - len(node.args.defaults):], node.args.defaults):
+                    if p not in env:
+                        env[p] = self.ev(d, env, fn.cls)
+                for k, v in (kwargs or {}).items():
+                    env[k] = v
                 return self.ev(node.body, env, fn.cls)
             decos = [norm(d) for d in node.decorator_list]
             allargs = list(args)
@@ -448,6 +482,32 @@ class Interp:
             return r[1] if r is not None and r[0] == 'return' else None
         finally:
             h.depth -= 1
+
+    def complete_from_init(self, ref):
+        """a scenario object that was built without running its constructor: the attributes the constructor derives from other attributes
+        of the object (`self.x = self.y.method`, `self.n = len(self.items)`) are set now, from the object as the scenario built it --
+        as the constructor would have left them -- so that later changes of the attributes they were derived from do not reach them"""
+        h = self.h
+        o = h.objs[ref.name]
+        for c_ in (h.module.mro(o['__class__']) if o['__class__'] in h.module.classes else []):
+            init_ = h.module.method(c_, '__init__')
+            if init_ is None or init_.cls != c_:
+                continue
+            params = {a.arg for a in init_.node.args.args + init_.node.args.kwonlyargs} - {'self'}
+            for st_ in init_.node.body:
+                if not (isinstance(st_, ast.Assign) and len(st_.targets) == 1 and isinstance(st_.targets[0], ast.Attribute) and norm(st_.targets[0].value) == 'self'):
+                    continue
+                f_ = h.fld(st_.targets[0].attr, c_)
+                if f_ in o or isinstance(st_.value, ast.Constant):
+                    continue
+                names = {n_.id for n_ in ast.walk(st_.value) if isinstance(n_, ast.Name)}
+                if names & params or not any(isinstance(n_, ast.Attribute) and norm(n_.value) == 'self' for n_ in ast.walk(st_.value)) \
+                        or any(isinstance(n_, ast.Call) for n_ in ast.walk(st_.value)):
+                    continue
+                try:
+                    o[f_] = self.ev(st_.value, {'self': ref}, c_)
+                except (AnalysisError, Raised):
+                    pass
 
     def run(self, stmts, env, cls):
         for st in stmts:
@@ -528,6 +588,8 @@ class Interp:
                 return h.new_list(list(v)) if isinstance(v, list) else v
             if e.id in ('tuple', 'str', 'int', 'list', 'dict', 'bytes', 'set', 'frozenset') or (e.id[:1].isupper() and e.id not in env):
                 return ('class', e.id)
+            if e.id in ('len', 'repr', 'ord', 'chr', 'bool', 'sorted', 'min', 'max', 'any', 'all', 'enumerate', 'reversed') and e.id not in h.hooks:
+                return ('builtin', e.id)            # a builtin function as a value (map(len, xs), key=len)
             # a name the module imports from elsewhere (function, class, constant of another module): an opaque value that
             # can be stored and compared, not called
             for mod_ in (h.module.mods if hasattr(h.module, 'mods') else [h.module]):
@@ -612,7 +674,7 @@ class Interp:
                 if isinstance(l, Key) and isinstance(r, Key):
                     same = l.cls == r.cls
                 elif isinstance(l, Ref) or isinstance(r, Ref):
-                    same = l == r
+                    same = self.equal_values(l, r)
                 else:
                     same = l == r
                 return same if isinstance(op, ast.Eq) else not same
@@ -797,6 +859,32 @@ class Interp:
                 else:
                     lang = _rx.from_function(a_, [], 0, lambda q, sym: 1 if (q == 1 or not (mask >> sym & 1)) else 0, lambda q: q == 0)
                 return subject._decide(lang, '%s(... for %s in ...)' % (fn.id, g_.target.id))
+        if isinstance(fn, ast.Name) and fn.id in ('any', 'all') and fn.id not in env and fn.id not in h.hooks and len(e.args) == 1 and not e.keywords \
+                and isinstance(e.args[0], ast.GeneratorExp) and not any(g_.is_async for g_ in e.args[0].generators):
+            # any / all over a generator expression stop at the first deciding item: what the later items would have computed (or
+            # raised) does not happen
+            gen_ = e.args[0]
+            stop_on = fn.id == 'any'
+
+            class _Stop(Exception):
+                pass
+
+            def clauses_(k, env2):
+                if k == len(gen_.generators):
+                    if self.truth(self.ev(gen_.elt, env2, cls)) == stop_on:
+                        raise _Stop()
+                    return
+                g_ = gen_.generators[k]
+                for v_ in self.seq(self.ev(g_.iter, env2 if k else env, cls)):
+                    env3 = dict(env2)
+                    self.assign(g_.target, v_, env3, cls)
+                    if all(self.truth(self.ev(c_, env3, cls)) for c_ in g_.ifs):
+                        clauses_(k + 1, env3)
+            try:
+                clauses_(0, dict(env))
+            except _Stop:
+                return stop_on
+            return not stop_on
         args = []
         for a in e.args:
             if isinstance(a, ast.Starred):
@@ -825,6 +913,13 @@ class Interp:
             if len(r_) > 10000:
                 raise AnalysisError('heap model: range too large')
             return list(r_)
+        if isinstance(fn, ast.Name) and fn.id == 'ord' and 'ord' not in env and len(args) == 1 and not kwargs:
+            t_ = args[0].concrete() if isinstance(args[0], SStr) else args[0]
+            if isinstance(t_, str) and len(t_) == 1:
+                return ord(t_)
+            raise AnalysisError('heap model: ord() of %r' % (args[0],))
+        if isinstance(fn, ast.Name) and fn.id == 'chr' and 'chr' not in env and len(args) == 1 and not kwargs and isinstance(args[0], int):
+            return chr(args[0])
         if isinstance(fn, ast.Name) and fn.id == 'max' and 'max' not in env and len(args) >= 1 and not kwargs:
             vals = self.seq(args[0]) if len(args) == 1 else list(args)
             if vals and all(isinstance(v, int) for v in vals):
@@ -837,11 +932,32 @@ class Interp:
             items = self.seq(args[0])
             sl = slice(*[a for a in args[1:]]) if len(args) > 2 else slice(args[1])
             return items[sl]
+        if norm(fn) in ('itertools.dropwhile', 'dropwhile', 'itertools.takewhile', 'takewhile') and len(args) == 2 and not kwargs and norm(fn).split('.')[0] not in env:
+            items_ = self.seq(args[1])
+            k_ = 0
+            while k_ < len(items_) and self.truth(self.apply(args[0], [items_[k_]])):
+                k_ += 1
+            return items_[k_:] if norm(fn).endswith('dropwhile') else items_[:k_]
         if norm(fn) in ('itertools.chain', 'chain') and 'chain' not in env:
             out_ = []
             for a in args:
                 out_ += self.seq(a)
             return out_
+        if norm(fn) in ('collections.deque', 'deque') and norm(fn).split('.')[0] not in env and len(args) <= 1 and set(kwargs) <= {'maxlen'}:
+            # a bounded queue fed from an iterable keeps the last maxlen items (read here as a list: indexing, truth, len, iteration)
+            items = self.seq(args[0]) if args else []
+            ml = kwargs.get('maxlen')
+            if ml is not None:
+                if not isinstance(ml, int) or isinstance(ml, bool) or ml < 0:
+                    raise AnalysisError('heap model: deque(maxlen=%r)' % (ml,))
+                items = items[len(items) - ml:] if ml else []
+                return tuple(items)         # read-only in the model: a later append (which would evict) is not modelled and fails closed
+            return h.new_list(list(items))
+        if norm(fn) in ('operator.itemgetter', 'itemgetter') and len(args) == 1 and not kwargs and norm(fn).split('.')[0] not in env:
+            return ('itemgetter', args[0])
+        if norm(fn) in ('operator.attrgetter', 'attrgetter') and len(args) == 1 and not kwargs and isinstance(args[0], str) and '.' not in args[0] \
+                and norm(fn).split('.')[0] not in env:
+            return ('attrgetter', args[0])
         if norm(fn) in ('functools.partial', 'partial') and args and 'partial' not in env:
             return ('partial', args[0], tuple(args[1:]), dict(kwargs))
         if (isinstance(fn, ast.Attribute) and fn.attr == 'copy' and isinstance(fn.value, ast.Name) and fn.value.id == 'copy' and 'copy' not in env
@@ -1291,6 +1407,41 @@ class Interp:
                 return
         h.setattr(ref, attr, value, cls)
 
+    def equal_values(self, a, b, depth=0):
+        """`a == b` where at least one side is an object of the heap: builtin lists and dictionaries compare by content (a list never
+        equals a tuple), an object of the module through its __eq__ when it defines one, anything else by identity"""
+        h = self.h
+        if depth > 20:
+            raise AnalysisError('heap model: equality nested too deeply')
+        la = h.is_list(a) or isinstance(a, list)
+        lb = h.is_list(b) or isinstance(b, list)
+        if la and lb:
+            xs = h.items(a) if h.is_list(a) else a
+            ys = h.items(b) if h.is_list(b) else b
+            return len(xs) == len(ys) and all(self.equal_values(x, y, depth + 1) if (isinstance(x, Ref) or isinstance(y, Ref)) else self.same_value(x, y) for x, y in zip(xs, ys))
+        if la or lb:
+            return False
+        if isinstance(a, Ref) and isinstance(b, Ref):
+            oa, ob = h.objs[a.name], h.objs[b.name]
+            if oa['__class__'] == 'dict' and ob['__class__'] == 'dict':
+                ea, eb = oa['entries'], ob['entries']
+                if len(ea) != len(eb):
+                    return False
+                for k_, v_ in ea:
+                    if not h.dict_has(b, k_):
+                        return False
+                    w_ = h.dict_get(b, k_)
+                    if not (self.equal_values(v_, w_, depth + 1) if (isinstance(v_, Ref) or isinstance(w_, Ref)) else self.same_value(v_, w_)):
+                        return False
+                return True
+            if a == b:
+                return True
+            eq_ = h.module.method(oa['__class__'], '__eq__') if oa['__class__'] in h.module.classes else None
+            if eq_ is not None:
+                return self.truth(self.call(Closure(eq_.node, {}, a, eq_.cls), [b]))
+            return False
+        return False
+
     def same_value(self, a, b):
         """== of two model values where it is decided without forking (constants, references by identity, equal symbolic texts)"""
         if isinstance(a, SStr) or isinstance(b, SStr):
@@ -1342,6 +1493,18 @@ class Interp:
                     return ('namedtuple', home.fold(node.args[0], c), tuple(fields))
                 if isinstance(node, ast.Constant):
                     return node.value
+                # a table computed from literals in the class body (and completed by .update() / [k] = v statements after it):
+                # the folded value; a dictionary is ONE object of the class
+                home = h.module._home(c) if hasattr(h.module, '_home') else h.module
+                val = home.consts.get(c, {}).get(cand) if home is not None else None
+                if isinstance(val, (tuple, frozenset, str, int, bytes)) and not isinstance(val, bool):
+                    return val
+                if isinstance(val, dict) and all(isinstance(x, (str, int, bytes, tuple, type(None))) for x in list(val) + list(val.values())):
+                    nm_ = '@classvar_%s_%s' % (c, cand)
+                    if nm_ not in h.objs:
+                        h.new_dict(nm_)
+                        h.objs[nm_]['entries'].extend(val.items())
+                    return Ref(nm_)
         return None
 
     def apply(self, f, args, kwargs=None):
@@ -1354,6 +1517,22 @@ class Interp:
             f = f[1]
         if isinstance(f, Closure):
             return self.call(f, list(args), kwargs)
+        if isinstance(f, tuple) and len(f) == 2 and f[0] in ('builtin', 'class') and f[1] in (
+                'len', 'repr', 'ord', 'chr', 'bool', 'sorted', 'min', 'max', 'any', 'all', 'enumerate', 'reversed', 'str', 'int', 'list', 'tuple', 'set', 'frozenset') \
+                and f[1] not in h.hooks and f[1] not in h.module.classes:
+            # a builtin that travelled as a value: the call it stands for, on these arguments
+            env_ = {'#a%d' % i: a for i, a in enumerate(args)}
+            for k_, v_ in kwargs.items():
+                env_['#k_' + k_] = v_
+            call_ = ast.Call(func=ast.Name(id=f[1], ctx=ast.Load()), args=[ast.Name(id='#a%d' % i, ctx=ast.Load()) for i in range(len(args))],
+                             keywords=[ast.keyword(arg=k_, value=ast.Name(id='#k_' + k_, ctx=ast.Load())) for k_ in kwargs])
+            return self.ev(ast.fix_missing_locations(call_), env_, None)
+        if isinstance(f, tuple) and len(f) == 2 and f[0] == 'itemgetter':
+            sub_ = ast.Subscript(value=ast.Name(id='#a0', ctx=ast.Load()), slice=ast.Name(id='#k', ctx=ast.Load()), ctx=ast.Load())
+            return self.ev(ast.fix_missing_locations(sub_), {'#a0': args[0], '#k': f[1]}, None)
+        if isinstance(f, tuple) and len(f) == 2 and f[0] == 'attrgetter':
+            return h.getattr(args[0], f[1], None) if isinstance(args[0], Ref) else self.ev(
+                ast.fix_missing_locations(ast.Attribute(value=ast.Name(id='#a0', ctx=ast.Load()), attr=f[1], ctx=ast.Load())), {'#a0': args[0]}, None)
         if isinstance(f, tuple) and len(f) == 2 and f[0] == 'class' and isinstance(f[1], str):
             # a class object that travelled through a local / a table before being called
             if f[1] in h.hooks:
@@ -1646,6 +1825,37 @@ class Interp:
             return self.run(st.body if self.truth(self.ev(st.test, env, cls)) else st.orelse, env, cls)
         if isinstance(st, ast.Return):
             return ('return', self.ev(st.value, env, cls) if st.value is not None else None)
+        if isinstance(st, (ast.Import, ast.ImportFrom)):
+            # an import inside a function binds names: a name the scenario hooks is that hook, anything else an opaque value
+            for a_ in st.names:
+                nm_ = a_.asname or a_.name.split('.')[0]
+                if nm_ in h.hooks:
+                    env[nm_] = ('hook', nm_)
+                else:
+                    env[nm_] = ('extern', '%s.%s' % (getattr(st, 'module', None) or '', a_.name))
+            return None
+        if isinstance(st, ast.With):
+            # with E as v: the context manager of a stream is the stream itself; an object of the module with __enter__ is entered.
+            # __exit__ is modelled for objects of the module only (called on normal and exceptional exit, its result ignored)
+            entered = []
+            for item in st.items:
+                v_ = self.ev(item.context_expr, env, cls)
+                if isinstance(v_, Ref) and h.objs[v_.name]['__class__'] in h.module.classes:
+                    en_ = h.module.method(h.objs[v_.name]['__class__'], '__enter__')
+                    ex_ = h.module.method(h.objs[v_.name]['__class__'], '__exit__')
+                    if ex_ is not None:
+                        entered.append((v_, ex_))
+                    if en_ is not None:
+                        v_ = self.call(Closure(en_.node, {}, v_, en_.cls), [])
+                if item.optional_vars is not None:
+                    if not isinstance(item.optional_vars, ast.Name):
+                        raise AnalysisError('heap model: with ... as %s' % norm(item.optional_vars))
+                    env[item.optional_vars.id] = v_
+            try:
+                return self.run(st.body, env, cls)
+            finally:
+                for v_, ex_ in reversed(entered):
+                    self.call(Closure(ex_.node, {}, v_, ex_.cls), [None, None, None])
         if isinstance(st, ast.Assert):
             if not self.truth(self.ev(st.test, env, cls)):
                 h.failed_asserts.append((st.lineno, norm(st.test)))
